@@ -1,47 +1,164 @@
 import PhyVerif.Model.C09
 import PhyVerif.Spec.C09
+import PhyVerif.Lemmas.C07
+import Mathlib.Tactic.Ring
+import Mathlib.Tactic.Linarith
+import Mathlib.Tactic.FieldSimp
+import Mathlib.Algebra.Order.Field.Rat
 /-! Helper lemmas and full proofs for C09. Statements: `Props/C09.lean`. -/
 namespace PhyVerif.C09.Lemmas
 open PhyVerif PhyVerif.C09
+
+theorem foldl_max_spec (l : List Rat) : ∀ a : Rat,
+    (l.foldl max a = a ∨ l.foldl max a ∈ l) ∧ a ≤ l.foldl max a ∧ ∀ x ∈ l, x ≤ l.foldl max a := by
+  induction l with
+  | nil => intro a; simp
+  | cons b l ih =>
+    intro a
+    rw [List.foldl_cons]
+    obtain ⟨h1, h2, h3⟩ := ih (max a b)
+    refine ⟨?_, le_trans (le_max_left a b) h2, ?_⟩
+    · rcases h1 with h1 | h1
+      · rw [h1]
+        rcases max_choice a b with h | h <;> simp [h]
+      · exact Or.inr (List.mem_cons_of_mem _ h1)
+    · intro x hx
+      rcases List.mem_cons.mp hx with h | h
+      · subst h; exact le_trans (le_max_right a x) h2
+      · exact h3 x h
+
+theorem foldl_min_spec (l : List Rat) : ∀ a : Rat,
+    (l.foldl min a = a ∨ l.foldl min a ∈ l) ∧ l.foldl min a ≤ a ∧ ∀ x ∈ l, l.foldl min a ≤ x := by
+  induction l with
+  | nil => intro a; simp
+  | cons b l ih =>
+    intro a
+    rw [List.foldl_cons]
+    obtain ⟨h1, h2, h3⟩ := ih (min a b)
+    refine ⟨?_, le_trans h2 (min_le_left a b), ?_⟩
+    · rcases h1 with h1 | h1
+      · rw [h1]
+        rcases min_choice a b with h | h <;> simp [h]
+      · exact Or.inr (List.mem_cons_of_mem _ h1)
+    · intro x hx
+      rcases List.mem_cons.mp hx with h | h
+      · subst h; exact le_trans h2 (min_le_right a x)
+      · exact h3 x h
+
+theorem listMax_spec (l : List Rat) (h : l ≠ []) : listMax l ∈ l ∧ ∀ x ∈ l, x ≤ listMax l := by
+  cases l with
+  | nil => exact absurd rfl h
+  | cons a t =>
+    unfold listMax
+    obtain ⟨h1, _, h3⟩ := foldl_max_spec (a :: t) ((a :: t).headD 0)
+    refine ⟨?_, h3⟩
+    rcases h1 with h1 | h1
+    · rw [h1]; simp
+    · exact h1
+
+theorem listMin_spec (l : List Rat) (h : l ≠ []) : listMin l ∈ l ∧ ∀ x ∈ l, listMin l ≤ x := by
+  cases l with
+  | nil => exact absurd rfl h
+  | cons a t =>
+    unfold listMin
+    obtain ⟨h1, _, h3⟩ := foldl_min_spec (a :: t) ((a :: t).headD 0)
+    refine ⟨?_, h3⟩
+    rcases h1 with h1 | h1
+    · rw [h1]; simp
+    · exact h1
+
+theorem getD_eq_getElem' (l : List Rat) (i : Nat) (h : i < l.length) : l.getD i 0 = l[i] := by
+  simp [List.getD_eq_getElem?_getD, h]
+
+theorem argmaxFirst_spec (l : List Rat) (h : l ≠ []) : IsFirstMax l (argmaxFirst l) := by
+  obtain ⟨hm, hb⟩ := listMax_spec l h
+  have hlt : argmaxFirst l < l.length := List.idxOf_lt_length_iff.mpr hm
+  have hget : l.getD (argmaxFirst l) 0 = listMax l := by
+    rw [getD_eq_getElem' l _ hlt]; exact List.getElem_idxOf hlt
+  refine ⟨hlt, ?_, ?_⟩
+  · intro j hj
+    rw [hget, getD_eq_getElem' l j hj]
+    exact hb _ (List.getElem_mem hj)
+  · intro j hj
+    have hjl : j < l.length := lt_trans hj hlt
+    rw [hget, getD_eq_getElem' l j hjl]
+    refine lt_of_le_of_ne (hb _ (List.getElem_mem hjl)) ?_
+    intro he
+    have hj' : j < l.findIdx (· == listMax l) := hj
+    have := List.not_of_lt_findIdx hj'
+    simp [he] at this
+
+theorem argminFirst_spec (l : List Rat) (h : l ≠ []) : IsFirstMin l (argminFirst l) := by
+  obtain ⟨hm, hb⟩ := listMin_spec l h
+  have hlt : argminFirst l < l.length := List.idxOf_lt_length_iff.mpr hm
+  have hget : l.getD (argminFirst l) 0 = listMin l := by
+    rw [getD_eq_getElem' l _ hlt]; exact List.getElem_idxOf hlt
+  refine ⟨hlt, ?_, ?_⟩
+  · intro j hj
+    rw [hget, getD_eq_getElem' l j hj]
+    exact hb _ (List.getElem_mem hj)
+  · intro j hj
+    have hjl : j < l.length := lt_trans hj hlt
+    rw [hget, getD_eq_getElem' l j hjl]
+    refine lt_of_le_of_ne (hb _ (List.getElem_mem hjl)) ?_
+    intro he
+    have hj' : j < l.findIdx (· == listMin l) := hj
+    have := List.not_of_lt_findIdx hj'
+    simp [← he] at this
+
+
+theorem foldl_max_map_mul (v : List Rat) (c : Rat) (hc : 0 ≤ c) : ∀ a : Rat,
+    (v.map (· * c)).foldl max (a * c) = v.foldl max a * c := by
+  induction v with
+  | nil => intro a; rfl
+  | cons b v ih =>
+    intro a
+    rw [List.map_cons, List.foldl_cons, List.foldl_cons, ← max_mul_of_nonneg a b hc, ih]
+
+theorem foldl_min_map_mul (v : List Rat) (c : Rat) (hc : 0 ≤ c) : ∀ a : Rat,
+    (v.map (· * c)).foldl min (a * c) = v.foldl min a * c := by
+  induction v with
+  | nil => intro a; rfl
+  | cons b v ih =>
+    intro a
+    rw [List.map_cons, List.foldl_cons, List.foldl_cons, ← min_mul_of_nonneg a b hc, ih]
+
+theorem listMax_map_mul (v : List Rat) (c : Rat) (hc : 0 ≤ c) :
+    listMax (v.map (· * c)) = listMax v * c := by
+  cases v with
+  | nil => simp [listMax]
+  | cons a t =>
+    unfold listMax
+    rw [List.map_cons, List.headD_cons, List.headD_cons, ← List.map_cons (f := (· * c)),
+      foldl_max_map_mul _ c hc]
+
+theorem listMin_map_mul (v : List Rat) (c : Rat) (hc : 0 ≤ c) :
+    listMin (v.map (· * c)) = listMin v * c := by
+  cases v with
+  | nil => simp [listMin]
+  | cons a t =>
+    unfold listMin
+    rw [List.map_cons, List.headD_cons, List.headD_cons, ← List.map_cons (f := (· * c)),
+      foldl_min_map_mul _ c hc]
+
+theorem ptp_scale (v : List Rat) (c : Rat) (hc : 0 ≤ c) : ptp (v.map (· * c)) = ptp v * c := by
+  unfold ptp
+  rw [listMax_map_mul v c hc, listMin_map_mul v c hc]
+  ring
 
 theorem spikeAmp_eq (d : Data) (i : Nat) (hi : i < d.spikes.length) (ha : d.amplitudes.length = d.spikes.length) :
     (spikeAmps d).getD i 0 =
       listMax (chAmps (matMul (d.wfsW.getD (d.spikes.getD i 0) []) d.wmi)) * d.amplitudes.getD i 0 ∨
     d.wfsW.length ≤ d.spikes.getD i 0 := by
-  sorry
-
-theorem ampsV_eq_mean (d : Data) (ha : d.amplitudes.length = d.spikes.length) (t : Nat)
-    (ht : t < d.wfsW.length) :
-    (ampsV d).getD t none = meanOver d.spikes (spikeAmps d) t ∧ (ampsV d).length = d.wfsW.length := by
-  sorry
-
-theorem listMax_spec (l : List Rat) (h : l ≠ []) : listMax l ∈ l ∧ ∀ x ∈ l, x ≤ listMax l := by
-  sorry
-
-theorem listMin_spec (l : List Rat) (h : l ≠ []) : listMin l ∈ l ∧ ∀ x ∈ l, listMin l ≤ x := by
-  sorry
-
-theorem ptp_scale (v : List Rat) (c : Rat) (hc : 0 ≤ c) : ptp (v.map (· * c)) = ptp v * c := by
-  sorry
-
-theorem rescaled_peak (d : Data) (ha : d.amplitudes.length = d.spikes.length)
-    (hnn : ∀ a ∈ d.amplitudes, 0 ≤ a) (t : Nat) (ht : t < d.wfsW.length) (v : Rat)
-    (hv : (ampsV d).getD t none = some v) (hau : 0 < (ampsAu d).getD t 0)
-    (hrect : ∀ row ∈ (unwhitened d).getD t [], row.length = ncols ((unwhitened d).getD t []))
-    (hcols : 0 < ncols ((unwhitened d).getD t [])) :
-    ∃ W, (rescaled d).getD t none = some W ∧ listMax (chAmps W) = v := by
-  sorry
-
-theorem meanAmps_eq (ids : List Nat) (amps : List Rat) (h : amps.length = ids.length) :
-    meanAmps ids amps = (Np.unique (ids.map Int.ofNat)).map fun t =>
-      (t, ((membersOf ids t).map fun i => amps.getD i 0).sum / ((membersOf ids t).length : Nat)) := by
-  sorry
-
-theorem argmaxFirst_spec (l : List Rat) (h : l ≠ []) : IsFirstMax l (argmaxFirst l) := by
-  sorry
-
-theorem argminFirst_spec (l : List Rat) (h : l ≠ []) : IsFirstMin l (argminFirst l) := by
-  sorry
+  by_cases hs : d.wfsW.length ≤ d.spikes.getD i 0
+  · exact Or.inr hs
+  · left
+    have hs' : d.spikes.getD i 0 < d.wfsW.length := by omega
+    have hi' : i < d.amplitudes.length := by omega
+    unfold spikeAmps ampsAu unwhitened
+    simp only [List.getD_eq_getElem?_getD] at hs' ⊢
+    simp [List.getElem?_map, hi, hi'] at hs' ⊢
+    simp [hs']
 
 theorem depths_eq (feat0 : List (List Rat)) (cols : List (List Nat)) (ys : List Rat)
     (st : List Nat) (i : Nat) (hi : i < feat0.length) (hl : st.length = feat0.length) :
@@ -49,6 +166,211 @@ theorem depths_eq (feat0 : List (List Rat)) (cols : List (List Nat)) (ys : List 
       (let f := (feat0.getD i []).map fun x => (max x 0) * (max x 0)
        let y := (cols.getD (st.getD i 0) []).map fun c => ys.getD c 0
        if f.sum = 0 then none else some (dot y f / f.sum)) := by
-  sorry
+  have hi' : i < st.length := by omega
+  unfold depths
+  simp only [List.getD_eq_getElem?_getD]
+  simp [hi, hi']
+
+
+theorem membersOf_cons (x : Nat) (s : List Nat) (t : Nat) :
+    membersOf (x :: s) t = (if x == t then [0] else []) ++ (membersOf s t).map (· + 1) := by
+  unfold membersOf
+  rw [List.length_cons, List.range_succ_eq_map, List.filter_cons, List.filter_map]
+  simp only [List.getD_cons_zero]
+  split
+  · simp [Function.comp_def]
+  · simp [Function.comp_def]
+
+theorem count_eq_members (s : List Nat) (t : Nat) : s.count t = (membersOf s t).length := by
+  induction s with
+  | nil => rfl
+  | cons x s ih =>
+    rw [membersOf_cons, List.count_cons, ih]
+    split <;> simp
+
+theorem wsum_eq_members (s : List Nat) (t : Nat) : ∀ w : List Rat, w.length = s.length →
+    (((s.zip w).filter fun p => p.1 == t).map (·.2)).sum =
+      ((membersOf s t).map fun i => w.getD i 0).sum := by
+  induction s with
+  | nil => intro w _; rfl
+  | cons x s ih =>
+    intro w hw
+    cases w with
+    | nil => simp at hw
+    | cons y w =>
+      rw [membersOf_cons, List.zip_cons_cons, List.filter_cons]
+      have hw' : w.length = s.length := by simpa using hw
+      have := ih w hw'
+      split
+      · simp [this, Function.comp_def]
+      · simp [this, Function.comp_def]
+
+
+theorem bincountW_getD (s : List Nat) (w : List Rat) (n t : Nat) (ht : t < n) :
+    (bincountW s w n).getD t 0 = (((s.zip w).filter fun p => p.1 == t).map (·.2)).sum := by
+  unfold bincountW
+  simp [List.getD_eq_getElem?_getD, ht]
+
+theorem bincountN_getD (s : List Nat) (n t : Nat) (ht : t < n) :
+    (bincountN s n).getD t 0 = s.count t := by
+  unfold bincountN
+  simp [List.getD_eq_getElem?_getD, ht]
+
+theorem spikeAmps_length (d : Data) (ha : d.amplitudes.length = d.spikes.length) :
+    (spikeAmps d).length = d.spikes.length := by
+  unfold spikeAmps; simp [ha]
+
+theorem ampsV_getD (d : Data) (t : Nat) (ht : t < d.wfsW.length) :
+    (ampsV d).getD t none =
+      if d.spikes.count t = 0 then none
+      else some ((bincountW d.spikes (spikeAmps d) d.wfsW.length).getD t 0 / (d.spikes.count t : Nat)) := by
+  unfold ampsV
+  simp only [List.getD_eq_getElem?_getD]
+  simp [bincountW, bincountN, ht]
+
+theorem ampsV_eq_mean (d : Data) (ha : d.amplitudes.length = d.spikes.length) (t : Nat)
+    (ht : t < d.wfsW.length) :
+    (ampsV d).getD t none = meanOver d.spikes (spikeAmps d) t ∧ (ampsV d).length = d.wfsW.length := by
+  refine ⟨?_, by simp [ampsV, bincountW, bincountN]⟩
+  rw [ampsV_getD d t ht, bincountW_getD _ _ _ _ ht,
+    wsum_eq_members _ _ _ (spikeAmps_length d ha), count_eq_members]
+  rfl
+
+theorem meanAmps_eq (ids : List Nat) (amps : List Rat) (h : amps.length = ids.length) :
+    meanAmps ids amps = (Np.unique (ids.map Int.ofNat)).map fun t =>
+      (t, ((membersOf ids t).map fun i => amps.getD i 0).sum / ((membersOf ids t).length : Nat)) := by
+  unfold meanAmps
+  apply List.map_congr_left
+  intro t ht
+  have hmem : t ∈ ids := by
+    have := ((PhyVerif.C07.Lemmas.unique_spec (ids.map Int.ofNat)).2 t).mp ht
+    simpa using this
+  have hle : t < ids.foldl max 0 + 1 :=
+    Nat.lt_succ_of_le ((PhyVerif.C07.Lemmas.le_foldl_max ids 0).2 t hmem)
+  show (t, _) = (t, _)
+  congr 1
+  rw [bincountW_getD _ _ _ _ hle, bincountN_getD _ _ _ hle, wsum_eq_members _ _ _ h, count_eq_members]
+
+
+theorem ptp_nonneg (v : List Rat) : 0 ≤ ptp v := by
+  unfold ptp listMax listMin
+  have h1 := (foldl_max_spec v (v.headD 0)).2.1
+  have h2 := (foldl_min_spec v (v.headD 0)).2.1
+  linarith
+
+theorem listMax_nonneg (l : List Rat) (h : ∀ x ∈ l, 0 ≤ x) : 0 ≤ listMax l := by
+  cases l with
+  | nil => simp [listMax]
+  | cons a t =>
+    have h1 := (foldl_max_spec (a :: t) ((a :: t).headD 0)).2.1
+    have h2 : 0 ≤ a := h a (by simp)
+    unfold listMax
+    rw [List.headD_cons] at h1 ⊢
+    linarith
+
+theorem listMax_chAmps_nonneg (W : Mat) : 0 ≤ listMax (chAmps W) := by
+  apply listMax_nonneg
+  intro x hx
+  unfold chAmps at hx
+  obtain ⟨j, _, rfl⟩ := List.mem_map.mp hx
+  exact ptp_nonneg _
+
+theorem ampsAu_getD_nonneg (d : Data) (k : Nat) : 0 ≤ (ampsAu d).getD k 0 := by
+  unfold ampsAu
+  rw [List.getD_eq_getElem?_getD, List.getElem?_map]
+  cases (unwhitened d)[k]? with
+  | none => simp
+  | some W => simpa using listMax_chAmps_nonneg W
+
+theorem spikeAmps_nonneg (d : Data) (hnn : ∀ a ∈ d.amplitudes, 0 ≤ a) :
+    ∀ x ∈ spikeAmps d, 0 ≤ x := by
+  intro x hx
+  unfold spikeAmps at hx
+  obtain ⟨p, hp, rfl⟩ := List.mem_map.mp hx
+  exact mul_nonneg (ampsAu_getD_nonneg d p.1) (hnn _ (List.of_mem_zip hp).2)
+
+theorem list_sum_nonneg (l : List Rat) (h : ∀ x ∈ l, 0 ≤ x) : 0 ≤ l.sum := by
+  induction l with
+  | nil => simp
+  | cons a l ih =>
+    rw [List.sum_cons]
+    exact add_nonneg (h a (by simp)) (ih fun x hx => h x (by simp [hx]))
+
+theorem wsum_nonneg (s : List Nat) (w : List Rat) (t : Nat) (h : ∀ x ∈ w, 0 ≤ x) :
+    0 ≤ (((s.zip w).filter fun p => p.1 == t).map (·.2)).sum := by
+  apply list_sum_nonneg
+  intro x hx
+  obtain ⟨p, hp, rfl⟩ := List.mem_map.mp hx
+  exact h _ (List.of_mem_zip (List.mem_filter.mp hp).1).2
+
+theorem ampsV_nonneg (d : Data) (hnn : ∀ a ∈ d.amplitudes, 0 ≤ a) (t : Nat)
+    (ht : t < d.wfsW.length) (v : Rat) (hv : (ampsV d).getD t none = some v) : 0 ≤ v := by
+  rw [ampsV_getD d t ht, bincountW_getD _ _ _ _ ht] at hv
+  split at hv
+  · cases hv
+  · injection hv with hv
+    rw [← hv]
+    exact div_nonneg (wsum_nonneg _ _ _ (spikeAmps_nonneg d hnn)) (Nat.cast_nonneg _)
+
+theorem rescaled_getD (d : Data) (t : Nat) (ht : t < d.wfsW.length) :
+    (rescaled d).getD t none =
+      match (ampsV d).getD t none with
+      | none => none
+      | some v =>
+        if (ampsAu d).getD t 0 = 0 then none
+        else some (((unwhitened d).getD t []).map fun row =>
+          row.map (· * (v / (ampsAu d).getD t 0))) := by
+  have hU : t < (unwhitened d).length := by simp [unwhitened, ht]
+  have hA : t < (ampsAu d).length := by simp [ampsAu, unwhitened, ht]
+  have hV : t < (ampsV d).length := by simp [ampsV, bincountW, bincountN, ht]
+  unfold rescaled
+  simp only [List.getD_eq_getElem?_getD]
+  simp [hU, hA, hV]
+  rfl
+
+theorem ncols_scale (U : Mat) (c : Rat) : ncols (U.map fun row => row.map (· * c)) = ncols U := by
+  cases U <;> simp [ncols]
+
+theorem col_scale (U : Mat) (c : Rat) (j : Nat) :
+    col (U.map fun row => row.map (· * c)) j = (col U j).map (· * c) := by
+  unfold col
+  rw [List.map_map, List.map_map]
+  apply List.map_congr_left
+  intro row _
+  simp only [Function.comp_def, List.getD_eq_getElem?_getD, List.getElem?_map]
+  cases row[j]? <;> simp
+
+theorem chAmps_scale (U : Mat) (c : Rat) (hc : 0 ≤ c) :
+    chAmps (U.map fun row => row.map (· * c)) = (chAmps U).map (· * c) := by
+  unfold chAmps
+  rw [ncols_scale, List.map_map]
+  apply List.map_congr_left
+  intro j _
+  simp only [Function.comp_def]
+  rw [col_scale, ptp_scale _ _ hc]
+
+-- `hrect`/`hcols`/`ha` are not needed by the proof (kept: part of the public statement).
+set_option linter.unusedVariables false in
+theorem rescaled_peak (d : Data) (ha : d.amplitudes.length = d.spikes.length)
+    (hnn : ∀ a ∈ d.amplitudes, 0 ≤ a) (t : Nat) (ht : t < d.wfsW.length) (v : Rat)
+    (hv : (ampsV d).getD t none = some v) (hau : 0 < (ampsAu d).getD t 0)
+    (hrect : ∀ row ∈ (unwhitened d).getD t [], row.length = ncols ((unwhitened d).getD t []))
+    (hcols : 0 < ncols ((unwhitened d).getD t [])) :
+    ∃ W, (rescaled d).getD t none = some W ∧ listMax (chAmps W) = v := by
+  have hv0 : 0 ≤ v := ampsV_nonneg d hnn t ht v hv
+  have hne : (ampsAu d).getD t 0 ≠ 0 := ne_of_gt hau
+  have hc : 0 ≤ v / (ampsAu d).getD t 0 := div_nonneg hv0 (le_of_lt hau)
+  refine ⟨((unwhitened d).getD t []).map fun row =>
+          row.map (· * (v / (ampsAu d).getD t 0)), ?_, ?_⟩
+  · rw [rescaled_getD d t ht, hv]
+    simp only [if_neg hne]
+  · rw [chAmps_scale _ _ hc, listMax_map_mul _ _ hc]
+    have hA : (ampsAu d).getD t 0 = listMax (chAmps ((unwhitened d).getD t [])) := by
+      have hU : t < (unwhitened d).length := by simp [unwhitened, ht]
+      unfold ampsAu
+      simp only [List.getD_eq_getElem?_getD]
+      simp [hU]
+    rw [← hA]
+    field_simp
 
 end PhyVerif.C09.Lemmas
